@@ -111,34 +111,47 @@ def CT.stepLine (s : CT) (toks : List String) : CT × String :=
 
 /-! ## EvictionState
 
-Slots are natural numbers (the slot types are used with non-negative indices; wrap-around of the
-`for i := start; i <= slot; i++` loop at the top of a fixed-width type is not modelled).  Every slot
-gets at most one real event in its life (created while the slot is above the last evicted slot),
-so a real event is identified by its slot. -/
+Slots are integers: every integer slot type of `EvictionStateSlotType` embeds into `Int`, and so do the float slots the
+harness uses (multiples of 1/4, counted in quarters) — the code only compares slots (`slot > *lastEvictedSlot`,
+`registeredSlot <= slot`), so any order embedding is faithful.  `evict` (as repaired, see known_findings/C14.json)
+collects the registered events of all slots up to the evicted slot, in ascending order, instead of probing the slots
+one by one counted up from 0 / the last evicted slot.  Every slot gets at most one real event in its life (created
+while the slot is above the last evicted slot), so a real event is identified by its slot. -/
 
 structure EV where
-  last : Option Nat
-  events : List Nat      -- slots that have an event in `evictionEvents`
-  trig : List Nat        -- slots whose real event has been triggered
-  handed : List Nat      -- ghost: slots for which a real event was handed out
+  last : Option Int
+  events : List Int      -- slots that have an event in `evictionEvents`
+  trig : List Int        -- slots whose real event has been triggered
+  handed : List Int      -- ghost: slots for which a real event was handed out
 
 def EV.init : EV := { last := none, events := [], trig := [], handed := [] }
 
-def EV.evicted (s : EV) (slot : Nat) : Bool :=
+def EV.evicted (s : EV) (slot : Int) : Bool :=
   match s.last with
   | none => false
-  | some l => slot ≤ l
+  | some l => decide (slot ≤ l)
 
 inductive EVOp
-  | event (slot : Nat)
-  | evict (slot : Nat)
+  | event (slot : Int)
+  | evict (slot : Int)
 deriving Repr
 
 inductive EVOut
   | pre                     -- the shared pre-triggered event
   | held (fresh : Bool)     -- the slot's real (still untriggered) event; `fresh` = created by this call
-  | triggered (slots : List Nat)   -- events triggered by this `Evict`, in slot order
+  | triggered (slots : List Int)   -- events triggered by this `Evict`, in slot order
 deriving Repr, DecidableEq
+
+/-- `evict`: the registered slots up to `slot` (`ForEachKey` + `registeredSlot <= slot`), sorted ascending. -/
+def insInt (a : Int) : List Int → List Int
+  | [] => [a]
+  | b :: l => if a ≤ b then a :: b :: l else b :: insInt a l
+
+def sortInts : List Int → List Int
+  | [] => []
+  | a :: l => insInt a (sortInts l)
+
+def evFire (events : List Int) (slot : Int) : List Int := sortInts (events.filter (fun i => decide (i ≤ slot)))
 
 def EV.step (s : EV) : EVOp → EV × EVOut
   | .event slot =>
@@ -148,21 +161,20 @@ def EV.step (s : EV) : EVOp → EV × EVOut
   | .evict slot =>
     if s.evicted slot then (s, .triggered [])
     else
-      let start := match s.last with | none => 0 | some l => l + 1
-      let fire := (List.range' start (slot + 1 - start)).filter (fun i => s.events.contains i)
-      ({ s with last := some slot, events := s.events.filter (fun i => !(decide (start ≤ i) && decide (i ≤ slot))),
-                trig := s.trig ++ fire }, .triggered fire)
+      ({ s with last := some slot, events := s.events.filter (fun i => !decide (i ≤ slot)),
+                trig := s.trig ++ evFire s.events slot }, .triggered (evFire s.events slot))
 
 def EV.run (s : EV) : List EVOp → EV
   | [] => s
   | op :: ops => EV.run (s.step op).1 ops
 
-/-! ### The loop of `evict` on a fixed-width slot type
+/-! ### The probing loop `evict` had before (witnesses only)
 
-`for i := startingSlot; i <= slot; i++ { probe i; if i == slot { break } }` (the repaired code) on a slot type whose
-largest value is `top`: `i++` at `top` wraps around (to 0 for the unsigned types; the signed ones wrap to their minimum,
-which is below every slot as well — the model uses 0 for both).  `none` = the loop is still running when the fuel is
-used up.  `evLoopOld` is the loop without the `break`: with `slot = top` its condition `i <= slot` can never fail. -/
+Up to 4972df2: `for i := startingSlot; i <= slot; i++ { probe i }` with `startingSlot` = 0 before the first eviction
+and `lastEvictedSlot + 1` afterwards.  Three defects: (1) with `slot` the largest value of the slot type `i++` wraps
+around and the loop never ends (`evLoopOld`, repaired first by a `break`: `evLoop`); (2) a slot below 0 registered before
+the first eviction is never probed; (3) a float slot between two integers is never probed (`evFireOldProbe` with the
+model's unit = 1/`unit` of the type's step). -/
 
 def evNext (top i : Nat) : Nat := if i < top then i + 1 else 0
 
@@ -182,51 +194,46 @@ def evLoopOld (top : Nat) (events : List Nat) (slot : Nat) : Nat → Nat → Lis
     if i ≤ slot then evLoopOld top events slot fuel (evNext top i) (evProbe events i acc)
     else some acc.reverse
 
-/-- `EV.step` with `evict`'s loop executed literally on a slot type with largest slot `top` (what the driver runs;
-equal to `EV.step` for slots of the type: `EV.stepW_eq`). -/
-def EV.stepW (top : Nat) (s : EV) : EVOp → EV × EVOut
-  | .event slot => s.step (.event slot)
-  | .evict slot =>
-    if s.evicted slot then (s, .triggered [])
-    else
-      let start := match s.last with | none => 0 | some l => l + 1
-      let fire := (evLoop top s.events slot (slot + 1 - start) start []).getD []
-      ({ s with last := some slot, events := s.events.filter (fun i => !(decide (start ≤ i) && decide (i ≤ slot))),
-                trig := s.trig ++ fire }, .triggered fire)
+/-- What the probing loop collected: the registered slots among `start, start+unit, start+2·unit, … ≤ slot`. -/
+def evFireOldProbe (events : List Int) (last : Option Int) (unit : Nat) (slot : Int) : List Int :=
+  let start : Int := match last with | none => 0 | some l => l + unit
+  events.filter (fun i => decide (start ≤ i) && decide (i ≤ slot) && decide ((i - start) % (unit : Int) = 0))
 
-/-- Largest slot of the slot types the harness instantiates `EvictionState` with (floats: up to where every integer
-is a value of the type). -/
-def evTop : String → Option Nat
-  | "int" | "i64" => some (2 ^ 63 - 1)
-  | "i8" => some (2 ^ 7 - 1)
-  | "i16" => some (2 ^ 15 - 1)
-  | "i32" => some (2 ^ 31 - 1)
-  | "uint" | "u64" | "uintptr" => some (2 ^ 64 - 1)
-  | "u8" => some (2 ^ 8 - 1)
-  | "u16" => some (2 ^ 16 - 1)
-  | "u32" | "slot32" => some (2 ^ 32 - 1)
-  | "f32" => some (2 ^ 24)
-  | "f64" => some (2 ^ 53)
+/-- Range of the slots of the slot types the harness instantiates `EvictionState` with, in the model's unit (integer
+types and `f32`/`f64`: the type's own values; `f32q`/`f64q`: quarters, the exactly representable range). -/
+def evRange : String → Option (Int × Int)
+  | "int" | "i64" => some (-(2 ^ 63), 2 ^ 63 - 1)
+  | "i8" => some (-(2 ^ 7), 2 ^ 7 - 1)
+  | "i16" => some (-(2 ^ 15), 2 ^ 15 - 1)
+  | "i32" => some (-(2 ^ 31), 2 ^ 31 - 1)
+  | "uint" | "u64" | "uintptr" => some (0, 2 ^ 63 - 1)      -- the harness carries slots as int64
+  | "u8" => some (0, 2 ^ 8 - 1)
+  | "u16" => some (0, 2 ^ 16 - 1)
+  | "u32" | "slot32" => some (0, 2 ^ 32 - 1)
+  | "f32" | "f32q" => some (-(2 ^ 24), 2 ^ 24)
+  | "f64" | "f64q" => some (-(2 ^ 53), 2 ^ 53)
   | _ => none
 
-def EV.stepLine (top : Nat) (s : EV) (toks : List String) : EV × String :=
+def showIntList (l : List Int) : String := "[" ++ " ".intercalate (l.map toString) ++ "]"
+
+def EV.stepLine (bot top : Int) (s : EV) (toks : List String) : EV × String :=
   match toks with
   | ["event", n] =>
-    match n.toNat? with
+    match n.toInt? with
     | some n =>
-      if n > top then (s, "bad-op") else
-      match s.stepW top (.event n) with
+      if n < bot || n > top then (s, "bad-op") else
+      match s.step (.event n) with
       | (s', .pre) => (s', "pre")
       | (s', .held true) => (s', "held new")
       | (s', .held false) => (s', "held same")
       | (s', _) => (s', "bad")
     | none => (s, "bad-op")
   | ["evict", n] =>
-    match n.toNat? with
+    match n.toInt? with
     | some n =>
-      if n > top then (s, "bad-op") else
-      match s.stepW top (.evict n) with
-      | (s', .triggered l) => (s', showNatList l ++ " last=" ++ toString (s'.last.getD 0))
+      if n < bot || n > top then (s, "bad-op") else
+      match s.step (.evict n) with
+      | (s', .triggered l) => (s', showIntList l ++ " last=" ++ toString (s'.last.getD 0))
       | (s', _) => (s', "bad")
     | none => (s, "bad-op")
   | _ => (s, "bad-op")
